@@ -1,0 +1,6 @@
+//go:build !verif
+
+package client
+
+// verifYield is a no-op unless built with -tags verif.
+func verifYield(string) {}
